@@ -41,6 +41,7 @@ package writer
 //@     assert [a-kibana-item-is-stored-only-under-a-validated-index-name] uf("safeName", bool, indexName)
 //@   site call ProcessIndexRequestPle #1:
 //@     assert [stream-id-cache-is-private-to-this-request] fresh(idxToStreamIdCache) && arg4 == myid
+//@   bounded eswriter/bulkerrors_test.go Test_Bounded_BulkErrorsFlag every sequence of at most 3 actions over 8 kinds of item (good document, unsupported action, oversize document, malformed document, unsafe index name; as last action also: truncated document, missing document line, unsupported action without newline) through the real handler (248 bodies): one item per action, each item failed/created as its kind demands, errors true iff some item failed
 //@ end
 
 // C15 (one item per action, an unknown action affects only its own item): the
@@ -70,11 +71,21 @@ package writer
 //    decided yet, 1 span index, 0 other), and the arrival time is used only
 //    when the event carries no time.
 //@ ghostdecl pleSpan int
+// (C13: the stream id, which alone selects the open segment store a batch is
+// written to, is derived from and cached under the RESOLVED index name and the
+// caller's organisation — never the addressed alias, whose target can change
+// while a store keyed by it stays open.)
 //@ func ProcessIndexRequestPle
-//@   props C15 C16 C19
+//@   props C15 C16 C19 C13
 //@   mode int
 //@   assumecalleerequires
 //@   ghostinit ghost(0, "pleSpan") == -1
+//@   site mapread idxToStreamIdCache[ #1:
+//@     assert [stream-id-looked-up-under-the-resolved-index-name] key == indexNameConverted
+//@   site call utils.CreateStreamId #1:
+//@     assert [stream-id-derived-from-the-resolved-index-name-and-the-callers-organisation] arg0 == indexNameConverted && arg1 == myid
+//@   site mapupdate idxToStreamIdCache[ #1:
+//@     assert [stream-id-cached-under-the-resolved-index-name] key == indexNameConverted
 //@   site call AddAndGetRealIndexName #1:
 //@     assert [only-a-validated-index-name-reaches-the-store] uf("safeName", bool, indexNameIn)
 //@   site call utils.TeeErrorf #2:
